@@ -1,13 +1,42 @@
 (** C13 — An alignment recipe transforms coordinates, gradients and Hessians covariantly.
-    Property theorems only; each is closed by [exact] of a lemma from Proofs/Mill.v or Proofs/MillCalc.v.
+    Property theorems only; each is closed by [exact] of a lemma from Proofs/Mill.v, Proofs/MillCalc.v,
+    Proofs/MillGen.v or Proofs/Blockwise.v.
     Model: Model/Mill.v (AlignmentMill and np_blockwise over an arbitrary commutative ring [K] with
     Leibniz equality: Z, R, ...; the correspondence check runs the same definitions at Q).
+    Tie: Gen/MillGen.v is regenerated on every run from the method bodies of models/align.py
+    (harness/translate/millgen.py); the C13_translated_* theorems prove the generated functions equal to the
+    model for all inputs; blockwise_expand/contract and the error behaviour are tied by correspondence.
     Vocabulary (Model/Mill.v): [Lmat m r c] is the linear part L of the recipe as a (3n x 3n) block
     operator, L[3i+a, 3j+b] = [j = atommap[i]] * s_b * rotation[b][a] with s = (1,-1,1) under mirror;
-    [tvec m] = - shift . rotation;  [bsum n f] = f 0 + ... + f (n-1);  [flat3] flattens an (n,3) array. *)
+    [tvec m] = - shift . rotation;  [bsum n f] = f 0 + ... + f (n-1);  [flat3] flattens an (n,3) array.
+
+    CLAUSE MAP (statement of C13 in properties.jsonl, clause by clause):
+    (a) "for any rotation- and translation-invariant energy, the gradient ... at the aligned geometry equal[s] the
+        aligned gradient":   C13_invariant_energy_gradient_covariant (any E, any grad characterised by directional
+        derivatives, over R; mirror on or off; needs only rotation^T rotation = I and atommap a permutation);
+        algebraic content: C13_coords_affine, C13_gradient_is_L, C13_L_orthogonal, C13_line_transport.
+    (b) "... and aligned Hessian":   C13_invariant_energy_hessian_covariant; C13_hessian_is_LHLt (mirror included).
+    (c) "per-atom arrays are permuted by the same atom map as the coordinates":   C13_atoms_same_map
+        (forward and reverse transform).
+    (d) "(for recipes without mirror) molecule-attached vectors and their nuclear derivatives rotate with the
+        frame":   C13_vector_is_rotT, C13_vector_gradient_covariant, C13_covariant_vector_jacobian.
+    (e) "Reordering a Hessian into 3x3 atom blocks and back is lossless":   C13_blockwise_lossless (every tile
+        count); for the public blockwise_expand/blockwise_contract with ANY block shape:
+        C13_blockwise_lossless_any_blockshape, C13_blockwise_unaligned_keeps_topleft,
+        C13_blockwise_misaligned_refused, C13_blockwise_33_is_mill.
+    (f) "one recipe (shift, rotation, atom map, optional mirror) ... forward and reverse":
+        C13_reverse_inverts_forward; errors: C13_wellformed_total (a well-formed recipe never raises; ill-formed
+        atom maps raise IndexError in the model and are compared by correspondence).
+    (g) model = code:   C13_translated_coordinates_is_model, C13_translated_gradient_is_model,
+        C13_translated_hessian_is_model, C13_translated_atoms_vector_datom_is_model (generated from the source);
+        the atom loop of align_vector_gradient around its per-atom block, np_blockwise and align_system /
+        align_mini_system: only correspondence/oracle.
+    No clause is missing; none of the theorems is _partial.  _refuted: C13_vector_rotates_with_frame_under_mirror_refuted
+    (the "without mirror" restriction of clause (d) cannot be dropped; not a defect: the property excludes it). *)
 From Coq Require Import List Arith Lia Reals ZArith.
 From Coquelicot Require Import Coquelicot.
-Require Import QV.Common.Outcome QV.Common.AlignAlg QV.Common.AlignAlgFacts QV.Common.AlignAlgR QV.Model.Mill QV.Proofs.Mill QV.Proofs.MillCalc.
+Require Import QV.Common.Outcome QV.Common.AlignAlg QV.Common.AlignAlgFacts QV.Common.AlignAlgR QV.Model.Mill QV.Proofs.Mill QV.Proofs.MillCalc
+               QV.Model.MillOps QV.Gen.MillGen QV.Proofs.MillGen QV.Model.Blockwise QV.Proofs.Blockwise.
 Import ListNotations.
 
 (** align_coordinates (forward) is the affine map  x |-> L x + t. *)
@@ -157,9 +186,89 @@ Theorem C13_covariant_vector_jacobian :
     align_vector_gradient m (J x) = Ok (J' y).
 Proof. exact covariant_vector_jacobian. Qed.
 
+(** ---- np_blockwise with ANY block shape (Model/Blockwise.v): the public blockwise_expand / blockwise_contract ---- *)
+(** If the block shape (br, bc) divides the array shape, blocking succeeds (with or without
+    require_aligned_blocks) and un-blocking gives the array back. *)
+Theorem C13_blockwise_lossless_any_blockshape :
+  forall (K : Type) (KO : Ops K) gr gc br bc al (H : list K),
+  (0 < br)%nat -> (0 < bc)%nat -> length H = (gr * br * (gc * bc))%nat ->
+  exists B, expand_g (gr * br) (gc * bc) br bc al H = Ok B /\ contract_g gr gc br bc B = H.
+Proof. exact @blockwise_lossless_general. Qed.
+
+(** In general (require_aligned_blocks=False lets the view discard the remainder) un-blocking returns the
+    top-left (gr*br, gc*bc) part of the (h, w) array, gr = h // br, gc = w // bc, entry by entry. *)
+Theorem C13_blockwise_unaligned_keeps_topleft :
+  forall (K : Type) (KO : Ops K) h w br bc al (H B : list K),
+  (0 < br)%nat -> (0 < bc)%nat -> expand_g h w br bc al H = Ok B ->
+  let gr := (h / br)%nat in let gc := (w / bc)%nat in
+  length (contract_g gr gc br bc B) = (gr * br * (gc * bc))%nat /\
+  forall r c, (r < gr * br)%nat -> (c < gc * bc)%nat ->
+    nth (r * (gc * bc) + c) (contract_g gr gc br bc B) k0 = nth (r * w + c) H k0.
+Proof. exact @blockwise_roundtrip_general. Qed.
+
+(** blockwise_expand raises (AssertionError) exactly when alignment is required and the block shape does not
+    divide the array shape. *)
+Theorem C13_blockwise_misaligned_refused :
+  forall (K : Type) (KO : Ops K) h w br bc al (H : list K),
+  expand_g h w br bc al H = Err PyAssertion <-> (al = true /\ ((h mod br <> 0)%nat \/ (w mod bc <> 0)%nat)).
+Proof. exact @expand_g_error_iff. Qed.
+
+(** At block shape (3,3) the general functions are the [expand]/[contract] that align_hessian uses. *)
+Theorem C13_blockwise_33_is_mill :
+  forall (K : Type) (KO : Ops K) gr gc al (H B : list K),
+  expand_g (3 * gr) (3 * gc) 3 3 al H = Ok (expand gr gc H) /\ contract_g gr gc 3 3 B = contract gr gc B.
+Proof. intros. split; [apply expand_g_33 | apply contract_g_33]. Qed.
+
+(** ---- the translated method bodies (Gen/MillGen.v, regenerated from models/align.py on every run) ---- *)
+(** The let-chains the translator produces from the numpy statements of each method are the hand-written
+    model the theorems above are about, for every carrier, recipe and input: an operand swap, a dropped
+    transpose, a mirror flip at another place or axis, a reordered step in the source changes the generated
+    term and breaks these proofs. *)
+Theorem C13_translated_coordinates_is_model :
+  forall (K : Type) (KO : Ops K) (m : mill K) rev x, gen_align_coordinates m rev x = align_coordinates m rev x.
+Proof. exact @gen_align_coordinates_is_model. Qed.
+
+Theorem C13_translated_gradient_is_model :
+  forall (K : Type) (KO : Ops K) (m : mill K) g, gen_align_gradient m g = align_gradient m g.
+Proof. exact @gen_align_gradient_is_model. Qed.
+
+Theorem C13_translated_hessian_is_model :
+  forall (K : Type) (KO : Ops K) (m : mill K) n H, gen_align_hessian m n H = align_hessian m n H.
+Proof. exact @gen_align_hessian_is_model. Qed.
+
+Theorem C13_translated_atoms_vector_datom_is_model :
+  forall (K : Type) (KO : Ops K) (m : mill K),
+  (forall (A : Type) (a : list A), gen_align_atoms m a = align_atoms m a) /\
+  (forall v, gen_align_vector m v = align_vector m v) /\
+  (forall mu p, gen_datom m mu p = datom m mu p).
+Proof.
+  intros K KO m. split; [|split].
+  - intros A a. apply gen_align_atoms_is_model.
+  - apply gen_align_vector_is_model.
+  - apply gen_datom_is_model.
+Qed.
+
 (** ---- non-vacuity ---- *)
 #[local] Instance ZOps : Ops Z := {| k0 := 0%Z; k1 := 1%Z; kadd := Z.add; kmul := Z.mul; ksub := Z.sub; kopp := Z.opp |}.
 #[local] Instance ZLaws : RingLaws Z := InitialRing.Zth.
+
+(** The restriction to recipes WITHOUT mirror in the two vector theorems is necessary: align_vector (and
+    align_vector_gradient) ignore the mirror flag, so for a mirror recipe the difference vector x0 - x1 of the
+    aligned geometry is not the aligned difference vector.  (The property claims the vector transforms for
+    recipes without mirror only; models/align.py carries a "sensible? TODO" at this place.) *)
+Theorem C13_vector_rotates_with_frame_under_mirror_refuted :
+  exists (m : mill Z) (x y : list (vec3 Z)),
+    mirror m = true /\ mmul (mtrans (rot m)) (rot m) = mid /\ is_perm 2 (amap m) /\
+    align_coordinates m false x = Ok y /\
+    vsub (nth 0 y v0) (nth 1 y v0) <> align_vector m (vsub (nth 0 x v0) (nth 1 x v0)).
+Proof.
+  exists {| shift := (0, 0, 0)%Z; rot := ((1, 0, 0), (0, 1, 0), (0, 0, 1))%Z; amap := [0; 1]%nat; mirror := true |},
+         [(0, 0, 0); (1, 2, 3)]%Z, [(0, 0, 0); (1, -2, 3)]%Z.
+  split; [reflexivity|]. split; [reflexivity|]. split.
+  - split; [reflexivity|]. split; [repeat constructor; simpl; intuition lia | repeat constructor].
+  - split; [vm_compute; reflexivity|]. vm_compute. discriminate.
+Qed.
+
 
 (* quarter turn about z, shift (1,2,3), cyclic atom map, mirror on: the recipe shape of finding C13-hessian-mirror *)
 Definition ex_mill : mill Z :=
@@ -271,6 +380,14 @@ Proof.
     do 3 (destruct a as [|a]; [cbv [comp bsum nth Nat.mul Nat.add kadd kmul ROps k0]; auto_derive; [exact I|ring]|]). lia.
 Qed.
 
+(* a 4 x 5 array in 2 x 2 blocks: aligned blocking is refused, unaligned blocking drops the last column
+   (the docstring example of blockwise_expand) *)
+Example C13_ex_blockwise_general :
+  expand_g 4 5 2 2 true (map Z.of_nat (seq 1 20)) = Err PyAssertion /\
+  expand_g 4 5 2 2 false (map Z.of_nat (seq 1 20)) = Ok [1; 2; 6; 7; 3; 4; 8; 9; 11; 12; 16; 17; 13; 14; 18; 19]%Z /\
+  contract_g 2 2 2 2 [1; 2; 6; 7; 3; 4; 8; 9; 11; 12; 16; 17; 13; 14; 18; 19]%Z = [1; 2; 3; 4; 6; 7; 8; 9; 11; 12; 13; 14; 16; 17; 18; 19]%Z.
+Proof. repeat split; vm_compute; reflexivity. Qed.
+
 Print Assumptions C13_coords_affine.
 Print Assumptions C13_gradient_is_L.
 Print Assumptions C13_hessian_is_LHLt.
@@ -285,3 +402,12 @@ Print Assumptions C13_wellformed_total.
 Print Assumptions C13_invariant_energy_gradient_covariant.
 Print Assumptions C13_invariant_energy_hessian_covariant.
 Print Assumptions C13_covariant_vector_jacobian.
+Print Assumptions C13_blockwise_lossless_any_blockshape.
+Print Assumptions C13_blockwise_unaligned_keeps_topleft.
+Print Assumptions C13_blockwise_misaligned_refused.
+Print Assumptions C13_blockwise_33_is_mill.
+Print Assumptions C13_translated_coordinates_is_model.
+Print Assumptions C13_translated_gradient_is_model.
+Print Assumptions C13_translated_hessian_is_model.
+Print Assumptions C13_translated_atoms_vector_datom_is_model.
+Print Assumptions C13_vector_rotates_with_frame_under_mirror_refuted.
